@@ -64,6 +64,28 @@ Theorem C13_single_loss_repaired :
     u_done u = true /\ u_error u = false /\ us_ended (f_inner (n_srv w)) = true /\ us_bad (f_inner (n_srv w)) = 0.
 Proof. exact upload_single_loss_repaired. Qed.
 
+(* Other callers of the same stream: readinto() with arbitrary buffer sizes ks (smaller than a segment or not) on the raw
+   stream, then read().  The part of a segment that does not fit is kept in _pending and handed out first.
+   For ANY peer that only delivers 8-byte frames the result (data or error, final stream state, final network state) is the
+   one of f.read() alone (with n more units of loop fuel): nothing is lost or duplicated at the seams. *)
+Theorem C13_readinto_same_stream :
+  forall (S : Type) (srv : S -> frame -> S * list frame),
+  (forall s fr, Forall len8 (snd (srv s fr))) ->
+  forall (fuel : nat) (w : net) (index sub blksize : Z) (crc : bool) (ks : list Z),
+  exists n, ul_transfer_ri srv (Datatypes.S fuel) w index sub blksize crc ks =
+            ul_transfer srv (n + Datatypes.S fuel) w index sub blksize crc.
+Proof. exact @transfer_ri_equiv. Qed.
+
+(* ... hence the undisturbed transfer read that way returns exactly the value, for every list of buffer sizes. *)
+Theorem C13_readinto_exact :
+  forall (V : list Z) (B index sub : Z) (crc_client crc_server size_ind : bool) (fuel : nat) (ks : list Z),
+  1 <= zlen V < 4294967296 -> 1 <= B <= 127 -> (length V + 1 < fuel)%nat ->
+  exists u w,
+    ul_transfer_ri (faulty ul_srv) fuel (mknet (fs_init (us_init V crc_server size_ind) []) [] []) index sub B crc_client ks = (Ok V, u, w) /\
+    u_done u = true /\ u_error u = false /\
+    us_ended (f_inner (n_srv w)) = true /\ us_acks_exact (f_inner (n_srv w)) = true /\ us_bad (f_inner (n_srv w)) = 0.
+Proof. exact readinto_exact. Qed.
+
 (* CRC-16/XMODEM detects every single-bit corruption of a byte string of any length, from any register value
    (linearity over xor + the generator polynomial has constant term 1): flipping bit k of byte i changes the CRC. *)
 Theorem C13_crc_single_bit : forall (data : list Z) (c : Z) (i : nat) (k : Z),
@@ -89,5 +111,7 @@ Print Assumptions C13_block_upload_exact.
 Print Assumptions C13_crc_guard.
 Print Assumptions C13_crc_guard_ref.
 Print Assumptions C13_single_loss_repaired.
+Print Assumptions C13_readinto_same_stream.
+Print Assumptions C13_readinto_exact.
 Print Assumptions C13_crc_single_bit.
 Print Assumptions C13_crc_chunkwise.
